@@ -596,3 +596,93 @@ func ignoredIDParamRule(p *Prog, r *Report, rule string, mods map[string]bool, f
 }
 
 var ignoredParamOK = map[string]string{}
+
+// flagSelectsListRule: a keeper function whose bool parameter selects which id list of a
+// record is edited (lend ids / borrow ids) edits each list under exactly one value of that
+// flag. A list store that is reached for both values means removing an id of one kind also
+// removes the equal id of the other kind.
+func flagSelectsListRule(p *Prog, r *Report, rule string, mods map[string]bool, floor int) {
+	r.Rule(rule, "a bool parameter that selects an id list: every list edit sits under exactly one value of the flag", floor)
+	for _, fn := range p.Funcs {
+		if !mods[moduleOf(fn)] || p.isAuxFn(fn) || len(fn.Blocks) == 0 || fn.Signature.Recv() == nil || !strings.HasSuffix(fnPkgPath(fn), "/keeper") {
+			continue
+		}
+		var flags []*ssa.Parameter
+		for _, pr := range fn.Params {
+			if pr.Type().String() == "bool" {
+				flags = append(flags, pr)
+			}
+		}
+		if len(flags) != 1 {
+			continue
+		}
+		flag := flags[0]
+		// the test(s) of the flag
+		var tests []*ssa.BasicBlock
+		for _, b := range fn.Blocks {
+			if len(b.Instrs) == 0 {
+				continue
+			}
+			if ifi, ok := b.Instrs[len(b.Instrs)-1].(*ssa.If); ok {
+				c := ifi.Cond
+				if u, isU := c.(*ssa.UnOp); isU && u.Op == token.NOT {
+					c = u.X
+				}
+				if c == ssa.Value(flag) {
+					tests = append(tests, b)
+				}
+			}
+		}
+		if len(tests) == 0 {
+			continue
+		}
+		// stores into slice-typed fields of a record
+		type ls struct {
+			st    *ssa.Store
+			field string
+		}
+		var lists []ls
+		fieldsSeen := map[string]bool{}
+		for _, b := range fn.Blocks {
+			for _, in := range b.Instrs {
+				st, ok := in.(*ssa.Store)
+				if !ok {
+					continue
+				}
+				if _, isSl := st.Val.Type().Underlying().(*types.Slice); !isSl {
+					continue
+				}
+				_, path := addrBase(st.Addr)
+				if len(path) != 1 || !strings.HasSuffix(path[0], "Ids") {
+					continue
+				}
+				lists = append(lists, ls{st, path[0]})
+				fieldsSeen[path[0]] = true
+			}
+		}
+		if len(fieldsSeen) < 2 {
+			continue // the flag does not choose between lists
+		}
+		for i, l := range lists {
+			r.Instance(rule)
+			r.FuncsSeen[fname(fn)] = true
+			construct := fmt.Sprintf("%s %s edit #%d", fname(fn), l.field, i+1)
+			under := false
+			for _, t := range tests {
+				// a true arm: entered only from the test (the merge point after an if without else is
+				// dominated by the test too, but is reached for both values)
+				arm := func(s *ssa.BasicBlock) bool {
+					return len(s.Preds) == 1 && s.Preds[0] == t && (s == l.st.Block() || s.Dominates(l.st.Block()))
+				}
+				if arm(t.Succs[0]) != arm(t.Succs[1]) {
+					under = true
+				}
+			}
+			if under {
+				r.OK(rule, construct, "under one value of "+flag.Name(), p.instrPos(l.st))
+			} else {
+				r.Fail(rule, construct, "the list is edited for both values of "+flag.Name()+": an id of the other kind that happens to be equal is removed (or added) as well, and the position it names drops out of the sweeps and statistics", p.instrPos(l.st), nil)
+			}
+		}
+	}
+}
